@@ -448,6 +448,22 @@ _ROUND5 = {
     "C18": "Every string specimen x each of its rules x every spelling of the value in a query (QueryEscape, %20, raw); a specimen with a blank inside; embedded named scalars against Var on the scalar. " + _PRIMING,
     "C20": "Named numeric types with String() / Error() methods and time.Duration as fields, elements and map keys; unexported fields whose names start with a non-ASCII lower-case letter.",
 }
+_ROUND6 = {
+    "C01": "Text that is not well-formed UTF-8 (stray continuation bytes, truncated sequences, surrogates) with bounds at the character count and +-1.",
+    "C02": "One stage runs directed shapes and group cases under another clause separator (valid.ErrEndFlag is a variable), judged on the Go side.",
+    "C03": "Escaped '#' inside and at the start of URL values.",
+    "C04": "Containers (slice, array, map) of pointers to pointers to structs under required / exist.",
+    "C08": "A function registered globally (new name; name of a built-in) after the type was cached; eight never-used tag names first used at the same moment on one type (200 rounds per cache configuration).",
+    "C09": "Requested capacities above the default one (513, 700) with more live keys than that.",
+    "C12": "The Struct wrapper is called with decoy rule sets behind the real one; priming has a fourth order ending in 70 validations through the 'pointer to a non-struct' exits.",
+    "C13": "150 rounds (1500 thorough) of eight callers meeting a wide fresh type at once: a panic or a missing error is a violation.",
+    "C16": "Per-call entries holding a nil function under built-in, global, per-call-only and unknown names.",
+    "C17": "A field that is first member of an either group and of a botheq group; group ids that contain the other kind's name.",
+    "C18": "Rule arguments that end with a blank as the last thing in the rule text.",
+    "C20": "A panic of the dumper is recovered and reported with its input.",
+}
+for _p, _t in _ROUND6.items():
+    _ROUND5[_p] = (_ROUND5.get(_p, "") + " " + _t).strip()
 for _p, _t in _ROUND5.items():
     _ADDED_STREAMS[_p] = (_ADDED_STREAMS.get(_p, "") + " " + _t).strip()
 for _p, _t in _ADDED_STREAMS.items():
